@@ -88,7 +88,13 @@ func checkC06(c *Check) {
 						return k && cl == resOK
 					})
 					c.onlyAfterExhaustion(spg, "O-C06.1", "scan OK only after all entries", "the scan's OK verdict", E, ok)
-					c.mustPass(spg, "O-C06.1", "scan OK only after exhaustion", "the scan's OK verdict", ok, RangeDone(E))
+					top := E
+					if o := scanOuterLoop(spg, E); o != "" {
+						// nested form (C10): the scan is over when the loop over the entry lists is
+						top = o
+						c.onlyAfterExhaustion(spg, "O-C06.1", "scan OK only after all entry lists", "the scan's OK verdict", o, ok)
+					}
+					c.mustPass(spg, "O-C06.1", "scan OK only after exhaustion", "the scan's OK verdict", ok, RangeDone(top))
 				}
 			}
 		}
